@@ -58,6 +58,14 @@ RESTRICTIONS = [
     ("skipping_whitespace_rule", "Zz1 = 'a';\nWhitespace = ' ';\n", {}),
     ("memoize_without_clone", "@memoize\nZz1 = 'a';\n", {"derives": ["Debug"]}),
     ("memoize_without_clone_empty_derives", "@memoize\nZz1 = 'a';\n", {"derives": []}),
+    ("memoize_string_rule_without_clone", "@memoize\n@string\nZz1 = {'a'..'z'}+;\n", {"derives": ["Debug"]}),
+    ("memoize_string_position_rule_without_clone", "@string\n@position\n@memoize\n@no_skip_ws\nZz1 = {'a'..'z'}+;\n", {"derives": ["Debug"]}),
+    ("memoize_position_rule_without_clone", "@memoize\n@position\nZz1 = a:Zz2;\nZz2 = 'b';\n", {"derives": ["Debug", "PartialEq"]}),
+    ("memoize_override_enum_without_clone", "@memoize\nZz1 = @:Zz2 | @:Zz3;\nZz2 = 'b';\nZz3 = 'c';\n", {"derives": ["Debug"]}),
+    ("memoize_plain_override_without_clone", "@memoize\nZz1 = 'x' @:Zz2;\n@string\nZz2 = 'b';\n", {"derives": ["Debug"]}),
+    ("memoize_char_override_without_clone", "@memoize\nZz1 = @:char;\n", {"derives": []}),
+    ("memoize_export_without_clone", "@export\n@memoize\nZz1 = a:Zz2;\nZz2 = 'b';\n", {"derives": ["Debug", "Copy"]}),
+    ("memoize_second_rule_without_clone", "Zz1 = a:Zz2;\n@memoize\n@no_skip_ws\nZz2 = 'b';\n", {"derives": ["Debug"]}),
     ("memoize_leftrec_without_clone", "@memoize\n@leftrec\nZz1 = Zz1 'a' | 'a';\n", {"derives": ["Debug", "PartialEq"]}),
     ("nonascii_insensitive_in_closure", "Zz1 = {'a' | i\"x\u0151\"};\n", {}),
     ("nonascii_insensitive_in_lookahead", "Zz1 = !i'\u00df' char;\n", {}),
